@@ -108,6 +108,18 @@ Section Libraries.
     (c_req_wire V o, c_handler_arg V o, c_rep_wire V o, c_result V o) = plain_call V zarg zres mar unm q h /\
     c_req_secure V o = None.
   Proof. exact (unmarked_is_plain key V zarg zres mar unm enc dec keyver wrap unwrap). Qed.
+
+  (* [serve_call] - the server's half on a request frame with arbitrary metadata and body, which
+     the raw-client correspondence family runs - is the server's half of [call_flow]. *)
+  Theorem C17_server_half : forall kc ks q h xs1 ob1 w1,
+    pre_write key V mar enc keyver kc true (q_secure V q) false (q_arg V q) = WOk V xs1 ob1 ->
+    wire_body V mar wrap ob1 = Some w1 ->
+    let o := call_flow kc ks q h in
+    let s := serve_call key V zarg mar unm enc dec keyver wrap unwrap ks xs1 (q_accept V q) w1 h in
+    c_handler_arg V o = s_handler_arg V s /\ c_rep_secure V o = s_rep_secure V s /\
+    c_rep_wire V o = s_rep_wire V s /\
+    (s_status V s <> SOk -> c_status V o = s_status V s).
+  Proof. exact (call_flow_server_half key V zarg zres mar unm enc dec keyver wrap unwrap). Qed.
 End Libraries.
 
 Print Assumptions C17_secure_end_to_end.
@@ -119,6 +131,7 @@ Print Assumptions C17_wrong_key_no_handler.
 Print Assumptions C17_wrong_key_no_push_handler.
 Print Assumptions C17_wrong_key_result_not_delivered.
 Print Assumptions C17_unmarked_unchanged.
+Print Assumptions C17_server_half.
 
 (* The property's sentence "a reply is encrypted whenever the request was encrypted", read
    without the caller's opt-out, does not hold of the code: a request with X-Secure: true and
